@@ -418,12 +418,24 @@ impl Storage {
         let key = Key::Meta(LAST_STATE_KEY).into_vec();
         let mut value = total_difficulty.to_le_bytes().to_vec();
         value.extend(tip_header.as_slice());
+        let last_n_headers_key = Key::Meta(LAST_N_HEADERS_KEY).into_vec();
+        let mut last_n_headers_value: Vec<u8> = Vec::with_capacity(last_n_headers.len() * 40);
+        for header in last_n_headers {
+            last_n_headers_value.extend(header.number().to_le_bytes());
+            last_n_headers_value.extend(header.hash().as_slice());
+        }
+        // The last n headers are the ancestors of the last state, they should be consistent with
+        // each other even if the process is interrupted, so write them atomically.
+        let mut batch = self.batch();
+        batch
+            .put(key, &value)
+            .expect("batch put last state should be ok");
+        batch
+            .put(last_n_headers_key, &last_n_headers_value)
+            .expect("batch put last n headers should be ok");
         #[cfg(ckb_light_client_verif)]
         crate::verif_hooks::point("write", "update_last_state:put");
-        self.db
-            .put(key, &value)
-            .expect("db put last state should be ok");
-        self.update_last_n_headers(last_n_headers);
+        batch.commit().expect("batch commit should be ok");
     }
 
     pub fn get_last_state(&self) -> (U256, Header) {
@@ -441,19 +453,6 @@ impl Storage {
             .expect("tip header should be inited")
     }
 
-    pub fn update_last_n_headers(&self, headers: &[HeaderView]) {
-        let key = Key::Meta(LAST_N_HEADERS_KEY).into_vec();
-        let mut value: Vec<u8> = Vec::with_capacity(headers.len() * 40);
-        for header in headers {
-            value.extend(header.number().to_le_bytes());
-            value.extend(header.hash().as_slice());
-        }
-        #[cfg(ckb_light_client_verif)]
-        crate::verif_hooks::point("write", "update_last_n_headers:put");
-        self.db
-            .put(key, &value)
-            .expect("db put last n headers should be ok");
-    }
     pub fn get_last_n_headers(&self) -> Vec<(u64, Byte32)> {
         let key = Key::Meta(LAST_N_HEADERS_KEY).into_vec();
         self.db
